@@ -62,12 +62,25 @@ CH = 10          # chunk duration (ns)
 logging.getLogger("strax").setLevel(logging.CRITICAL)
 
 
+try:
+    _ALL_CPUS = sorted(os.sched_getaffinity(0))
+except AttributeError:
+    _ALL_CPUS = []
+
+
 def _pin():
     """sched.py runs several times faster when all its threads share one CPU"""
     try:
-        cpus = sorted(os.sched_getaffinity(0))
-        if len(cpus) > 1:
-            os.sched_setaffinity(0, {cpus[os.getpid() % len(cpus)]})
+        if len(_ALL_CPUS) > 1:
+            os.sched_setaffinity(0, {_ALL_CPUS[os.getpid() % len(_ALL_CPUS)]})
+    except (AttributeError, OSError):
+        pass
+
+
+def _unpin():
+    try:
+        if len(_ALL_CPUS) > 1:
+            os.sched_setaffinity(0, set(_ALL_CPUS))
     except (AttributeError, OSError):
         pass
 
@@ -836,6 +849,62 @@ def _exc_name(e):
     return f"{type(e).__name__}({msg})"
 
 
+# =============================================================================================================
+# corpus: thread-free witnesses of fixed defects in divide_outputs (D28, D29)
+# =============================================================================================================
+def divider_probe(case):
+    """divide_outputs driven directly (no threads): a source mailbox holding `n` dicts + the end marker, output
+    mailboxes xx, yy, zz of which `killed` was force-killed with an original exception at the start"""
+    src = strax.Mailbox(name="divider", max_messages=10)
+    gen = src.subscribe()
+    outs = {d: strax.Mailbox(name=d, max_messages=10) for d in ("xx", "yy", "zz")}
+    for d in case["dicts"]:
+        src.send({k: d for k in outs})
+    if case["closed"]:
+        src.close()
+    else:
+        src.kill(upstream=True, reason=(Injected, Injected(2), None))
+    for m in outs.values():
+        m.subscribe()
+    original = Injected(1)
+    if case["killed"]:
+        outs[case["killed"]].kill(upstream=True, reason=(Injected, original, None))
+    try:
+        strax.divide_outputs(gen, outs, outputs=("xx", "yy", "zz"))
+        res = "returned"
+    except BaseException as e:  # noqa: BLE001
+        res = "raised:" + _exc_name(e)
+    st = []
+    for d, m in outs.items():
+        why = m.killed_because[1] if m.killed_because else None
+        st.append(f"{d}:{'closed' if m.closed else 'open'}/{'killed' if m.killed else 'alive'}/"
+                  f"{_exc_name(why) if why is not None else '-'}")
+    return f"ok {res} {' '.join(st)}"
+
+
+def divider_oracle(case, out):
+    """after divide_outputs has ended, every output mailbox is closed or killed (no reader can hang), and a kill
+    reason is always one of the original exceptions"""
+    parts = out.split(" ")
+    for p in parts[2:]:
+        d, rest = p.split(":", 1)
+        state, killed, why = rest.split("/", 2)
+        if state == "open" and killed == "alive":
+            return f"output {d} is neither closed nor killed after divide_outputs ended ({out})"
+        if why not in ("-", "Injected[1]", "Injected[2]"):
+            return f"output {d} was killed with reason {why}, not with an original exception ({out})"
+    return None
+
+
+def divider_cases():
+    out = []
+    for n in (0, 1, 2):
+        for closed in (True, False):
+            for killed in (None, "xx", "yy", "zz"):
+                out.append(dict(dicts=list(range(n)), closed=closed, killed=killed))
+    return out
+
+
 def fields(out):
     return dict(x.split("=", 1) for x in out[3:].split(" "))
 
@@ -846,8 +915,10 @@ _REF_LAG = {}
 def ref_lags(gname):
     """per-plugin lag of a graph, measured on an unconstrained reference run (capacity 64, eager, random schedule)"""
     if gname not in _REF_LAG:
+        _pin()
         line, _ = run_pipeline(dict(graph=gname, proc="threaded_mailbox", lazy=0, workers=None, cap=64, fault=None, ident=0,
                                     strat=dict(kind="random", seed=1)))
+        _unpin()
         f = fields(line)
         _REF_LAG[gname] = {k: int(v) for k, v in (x.split(":") for x in f["lag"].split(",") if x != "-")} if f["lag"] != "-" else {}
     return _REF_LAG[gname]
@@ -1044,7 +1115,11 @@ def _run_line(case):
 
 def run_many(cases, jobs):
     if jobs <= 1 or len(cases) < 8:
-        return [_run_line(c) for c in cases]
+        _pin()
+        try:
+            return [_run_line(c) for c in cases]
+        finally:
+            _unpin()
     import multiprocessing as mp
     ctx = mp.get_context("fork")
     with ctx.Pool(jobs, initializer=_worker_init) as pool:
@@ -1052,10 +1127,7 @@ def run_many(cases, jobs):
 
 
 def jobs_default():
-    try:
-        n = len(os.sched_getaffinity(0))
-    except AttributeError:
-        n = os.cpu_count() or 1
+    n = len(_ALL_CPUS) or (os.cpu_count() or 1)
     return max(1, min(int(os.environ.get("VERIF_JOBS", "6")), n))
 
 
@@ -1082,10 +1154,12 @@ def run(ctx):
                    nontrivial=lambda c, o: any(x.startswith(("m", "fin", "raised", "closed")) for x in o[3:].split(" | ")[0].split(",")),
                    rule=RULE_PO,
                    branch=lambda c, o: f"{c['kind']}/raised={int('raised(' in o)}/masked={int('<Injected' in o)}/err={int('err(' in o)}")
+    ctx.check_oracle("divider/corpus", divider_cases(), divider_probe, divider_oracle, exhaustive=True,
+                     rule="thread-free witnesses of D28/D29: divide_outputs over a prepared source with one output force-killed",
+                     branch=lambda c, o: f"closed={int(c['closed'])}/killed={c['killed']}/n={len(c['dicts'])}/{o.split(' ')[1].split(':')[0]}")
     ctx.note(f"wiring + PostOffice correspondence took {time.time() - t0:.0f}s")
     # (iii) pipelines under the scheduler
     t1 = time.time()
-    _pin()
     jobs = jobs_default()
     cases = pipeline_cases(rng, ctx.pick(2, 14)) + lag_cases(rng, ctx.pick(1, 6))
     outs = run_many(cases, jobs)
@@ -1126,6 +1200,9 @@ def replay(ctx, body):
         print("implementation output:", out)
         return po_oracle(case, out)
     _pin()
-    out, _ = run_pipeline(case)
+    try:
+        out, _ = run_pipeline(case)
+    finally:
+        _unpin()
     print("implementation output:", out)
     return pipe_oracle(case, out)
